@@ -11,13 +11,18 @@ class Pair(object):
     """side 'i' is the NFC-DEP initiator, side 't' the target"""
 
     def __init__(self, choices=(), seed=0, opts_i=None, opts_t=None,
-                 step_budget=400000):
+                 step_budget=400000, medium=None):
         vsched.patch_nfc()
         self.sched = vsched.Sched(choices, seed=seed, step_budget=step_budget)
         vsched.activate(self.sched)
-        self.air = simdev.Air()
-        self.clf = {"i": simdev.frontend(self.air, "i"),
-                    "t": simdev.frontend(self.air, "t")}
+        if medium is None:
+            self.air = simdev.Air()
+            self.clf = {"i": simdev.frontend(self.air, "i"),
+                        "t": simdev.frontend(self.air, "t")}
+        else:
+            # e.g. udpair.frontends: the library's real udp driver both sides
+            self.air, ci, ct = medium()
+            self.clf = {"i": ci, "t": ct}
         self.opts = {"i": dict(opts_i or {}), "t": dict(opts_t or {})}
         self.opts["i"]["role"] = "initiator"
         self.opts["t"]["role"] = "target"
